@@ -44,6 +44,24 @@ func genFor(model string) func(t *rapid.T) Case {
 		}
 		T := c.A.T()
 		c.Cut = rapid.IntRange(0, T-1).Draw(t, "cut")
+		// (not for RatingCurvePartition: outside its table the kernel is not defined - it panics by design)
+		if name != "RatingCurvePartition" && rapid.IntRange(0, 2).Draw(t, "quietPrefix") == 0 {
+			// a quiet start: some of the inputs are zero up to the cut and active only later, so a model that
+			// looks at its whole input window (instead of one step at a time) behaves differently when the
+			// later part is dropped or replaced
+			for i := range c.A.Inputs {
+				if rapid.Bool().Draw(t, "quietInput") {
+					for k := 0; k <= c.Cut; k++ {
+						c.A.Inputs[i][k] = 0
+					}
+					for k := c.Cut + 1; k < T; k++ {
+						if c.A.Inputs[i][k] == 0 {
+							c.A.Inputs[i][k] = 1 + float64(k%3)
+						}
+					}
+				}
+			}
+		}
 		c.Truncate = rapid.Bool().Draw(t, "truncate")
 		if !c.Truncate && c.Cut < T-1 {
 			c.Tail = simref.DrawInputs(t, name, c.A.Cell, T-1-c.Cut)
